@@ -12,6 +12,31 @@ COMMON_ASSUMPTIONS = [
 
 NOT_APPLICABLE = {}
 
+import random
+
+
+def sample(cases, n, seed):
+    if len(cases) <= n:
+        return cases
+    rnd = random.Random(seed)
+    idx = sorted(rnd.sample(range(len(cases)), n))
+    return [cases[i] for i in idx]
+
+
+def c12_post(cases, tier, seed):
+    """every pooled module under optimize=true and optimize=false (other options as enumerated)"""
+    cases = sample(cases, 6000 if tier == "quick" else 60000, seed)
+    out = []
+    for c in cases:
+        for flag in (True, False):
+            d = dict(c)
+            d["opts"] = dict(c["opts"], optimize=flag)
+            d["case"] = c["case"].replace("-", "_") + ("#T" if flag else "#F")
+            d["prop"] = "C12"
+            out.append(d)
+    return out
+
+
 PROPS = {
     "C01": dict(
         mc=[dict(module="MC_C01")], judge="Judge_C01", want=["js"],
@@ -66,6 +91,29 @@ PROPS = {
                      "tag, directive value/argument, v-slots, v-model target/argument: exactly-once only, position unconstrained",
                      "a repeated class/style/listener attribute may run at its own position or at its first occurrence's",
                      "on/nativeOn under transformOn is an attribute value: strict source order"],
+    ),
+    "C13": dict(
+        mc=[dict(module="MC_C13")], judge="Judge_C13", want=["js"],
+        rule="attribute sequences up to the bound over {static string, value-less, constant number/array/object, undefined, "
+             "dynamic identifier, call, object with a dynamic member} x {class, style, key, ref, onClick, other listener, plain, id, "
+             "namespaced, onUpdate:modelValue} plus {spread, computed-key v-model, plain and :arg v-model, directive, v-show, "
+             "v-html, v-text, transformOn `on` object} on div / input / component, exhaustively; plus nested component trees "
+             "(bound/unbound identifier, text, call, element, component children) for slot flags; non-trivial = optimize on",
+        exhaustive=dict(quick=True, thorough=True),
+        assumptions=["key and ref are not props for the 'can differ' clause; ref only matters for the NEED_PATCH clause",
+                     "a vnode call without any patch flag is always sound (Vue then diffs all props)"],
+    ),
+    "C12": dict(
+        mc=[dict(module="MC_C01"), dict(module="MC_C03"), dict(module="MC_C04"), dict(module="MC_C05"), dict(module="MC_C13"),
+            dict(module="MC_C02")],
+        post=c12_post, group_by=lambda cid: cid.split("#")[0],
+        judge="Judge_C12", want=["js"],
+        rule="the pooled modules enumerated for C01-C05 and C13 (all attribute/children/slot/directive/v-model shapes, "
+             "nested component trees), each transformed and executed under optimize=true and optimize=false with the other "
+             "options as enumerated; the pool is sampled by VERIF_SEED when larger than the tier's cap; non-trivial = the "
+             "optimize=true run carries at least one hint",
+        exhaustive=dict(quick=False, thorough=False),
+        assumptions=["hints = arguments 4-5 of vnode calls and the `_` entry of slot objects"],
     ),
     "C02": dict(
         mc=[dict(module="MC_C02")], judge="Judge_C02", want=["js"],
